@@ -37,17 +37,23 @@ def step (_ : Unit) (pre post : List String) : Unit × Verdict :=
           .propfail "future-block-hash-available" s!"GetPrevBlockHash({h}) at context height {ctxH} answered {res}"
         else if m = res then .ok else .diff s!"GetPrevBlockHash({h}) at height {ctxH}: model={m} impl={res}"
       | _, _ => .bad "numbers"
-    | ["win", b, w, s, h, total, blockHash, headerHash, seedHex, hash8],
+    | ["win", b, w, bc, wc, bp, wp, s, h, total, blockHash, headerHash, seedHex, hash8],
       [claimRes, mature, proofRes, req, used, idx, eRes, eReq, eUsed, eIdx, _] =>
       match b.toInt?, w.toInt?, s.toInt?, h.toInt?, total.toNat?, req.toInt?, used.toInt?, idx.toInt?,
-            eReq.toInt?, eUsed.toInt?, eIdx.toInt? with
-      | some B, some W, some S, some H, some total, some req, some used, some idx, some eReq, some eUsed, some eIdx =>
+            eReq.toInt?, eUsed.toInt?, eIdx.toInt?, bc.toInt?, wc.toInt?, bp.toInt?, wp.toInt? with
+      | some B, some W, some S, some H, some total, some req, some used, some idx, some eReq, some eUsed, some eIdx,
+        some Bc, some Wc, some Bp, some Wp =>
+        -- p: parameters in the state at session start; pcl: live when the claim is processed; (Bp, Wp): live
+        -- when the proof is processed (the model of the proof path does not read them)
         let p : Params := ⟨B, W⟩
-        let ctx := s!"B={B} W={W} S={S} H={H} total={total}"
+        let pcl : Params := ⟨Bc, Wc⟩
+        let same := Bc = B && Wc = W && Bp = B && Wp = W
+        let ctx := if same then s!"B={B} W={W} S={S} H={H} total={total}"
+          else s!"session-start B={B} W={W}, at claim B={Bc} W={Wc}, at proof B={Bp} W={Wp}, S={S} H={H} total={total}"
         if proofRes ≠ "ok" then .diff s!"{ctx}: could not observe the leaf selection: {proofRes}" else
         -- model
-        let mCheck := renderCheck (claimHeightCheck p p H S)
-        let mMature := toString (claimIsMature p H S)
+        let mCheck := renderCheck (claimHeightCheck p pcl H S)
+        let mMature := toString (claimIsMature pcl H S)
         let mReq := proofHeight p S
         let mUsed := entropyBlock p S
         let mSeed := Bytes.render (seed (ascii blockHash) (ascii headerHash))
@@ -70,6 +76,10 @@ def step (_ : Unit) (pre post : List String) : Unit × Verdict :=
         else if eRes = "ok" && H < S + W * B then
           .propfail "leaf-index-available-before-selecting-block"
             s!"{ctx}: at height {H} ValidateProof hands out leaf {eIdx} (hash of block {eUsed}) although the selecting block {S + W * B} does not exist yet; claim at this height: {claimRes}"
+        else if claimRes = "ok" && used < H && H > S + W * B && Wc * Bc > W * B && diffs.isEmpty then
+          -- only reachable when governance raised the window after the session started
+          .propfail "entropy-known-claim-window-raised-after-session-start"
+            s!"{ctx}: claim accepted at H under the raised live window, leaf selected by the hash of block {used} (session-start window)"
         else if claimRes = "ok" && used < H then
           if H = S + W * B then
             if diffs.isEmpty then
@@ -80,7 +90,7 @@ def step (_ : Unit) (pre post : List String) : Unit × Verdict :=
           .propfail "claim-accepted-before-session-end" ctx
         else if diffs.isEmpty then .ok
         else .diff (s!"{ctx}: " ++ "; ".intercalate diffs)
-      | _, _, _, _, _, _, _, _, _, _, _ => .bad "numbers"
+      | _, _, _, _, _, _, _, _, _, _, _, _, _, _, _ => .bad "numbers"
     | _, _ => .bad "op"
   ((), v)
 
